@@ -105,13 +105,20 @@ pub struct KnownEntry {
     pub what: String,
 }
 
-pub const KNOWN_FILE: &str = "/verif/known_findings.txt";
+/// Root of the verification tree (normally /verif; a `vp run` snapshot sets VERIF_ROOT).
+pub fn root() -> String {
+    std::env::var("VERIF_ROOT").unwrap_or_else(|_| "/verif".to_string())
+}
+
+pub fn known_file() -> String {
+    format!("{}/known_findings.txt", root())
+}
 
 /// Lines: `known: property=<id> sig=<<signature>> <what fails>`   (suppresses exactly that signature)
 ///        `fixed: property=<id> <commit> <what failed>`            (suppresses nothing)
 pub fn load_known() -> Vec<KnownEntry> {
     let mut out = Vec::new();
-    if let Ok(text) = std::fs::read_to_string(KNOWN_FILE) {
+    if let Ok(text) = std::fs::read_to_string(known_file()) {
         for line in text.lines() {
             if let Some(rest) = line.strip_prefix("known: property=") {
                 if let Some((prop, rest)) = rest.split_once(' ') {
@@ -203,11 +210,11 @@ impl Run {
             firsts.extend(rest);
             new_viol = firsts;
         }
-        let _ = std::fs::create_dir_all("/verif/evidence");
-        let _ = std::fs::create_dir_all("/verif/replays");
+        let _ = std::fs::create_dir_all(format!("{}/evidence", root()));
+        let _ = std::fs::create_dir_all(format!("{}/replays", root()));
         let mut replay_paths = Vec::new();
         for (i, v) in new_viol.iter().enumerate().take(10) {
-            let path = format!("/verif/replays/{}-{}-{}-{}.json", self.prop, self.tier.name(), self.seed, i);
+            let path = format!("{}/replays/{}-{}-{}-{}.json", root(), self.prop, self.tier.name(), self.seed, i);
             let body = json!({"property": self.prop, "seed": self.seed, "tier": self.tier.name(),
                               "signature": v.signature, "what": v.what, "case": v.case});
             let _ = std::fs::write(&path, serde_json::to_string_pretty(&body).unwrap());
@@ -256,7 +263,7 @@ impl Run {
             "wall_s": (self.elapsed() * 1000.0).round() / 1000.0,
             "violations": new_viol.len(),
         });
-        let path = format!("/verif/evidence/{}.json", self.prop);
+        let path = format!("{}/evidence/{}.json", root(), self.prop);
         if let Err(e) = std::fs::write(&path, serde_json::to_string_pretty(&evidence).unwrap()) {
             println!("INCONCLUSIVE cannot write evidence {}: {}", path, e);
             return 2;
